@@ -1,0 +1,81 @@
+//! Verification hooks (cargo feature `verif`, off by default).
+//!
+//! H1: re-exports the types needed to build an [Interpreter] over
+//! caller-supplied stdin / stdout / LPT1 / screen implementations.
+//!
+//! H2: the step observer types. The observer is called by the fetch-execute
+//! loop before every instruction and on every run-time error. It never
+//! mutates VM state; it can only ask the loop to stop.
+
+use rusty_common::Position;
+
+pub use super::io::{Input, Printer};
+pub use super::main::Interpreter;
+pub use super::read_input::ReadInputSource;
+pub use super::screen::Screen;
+pub use super::write_printer::WritePrinter;
+use crate::RuntimeErrorPos;
+use crate::instruction_generator::Instruction;
+
+/// Depths of the VM's stacks, sampled before an instruction executes.
+#[derive(Clone, Copy, Debug, Default, PartialEq, Eq)]
+pub struct VmDepths {
+    pub context_states: usize,
+    pub memory_blocks: usize,
+    pub value_stack: usize,
+    pub register_stack: usize,
+    pub var_path_stack: usize,
+    pub by_ref_stack: usize,
+    pub return_address_stack: usize,
+    pub go_sub_address_stack: usize,
+    pub stacktrace: usize,
+    pub has_function_result: bool,
+    pub last_error_code: Option<i32>,
+    pub has_last_error_address: bool,
+}
+
+#[derive(Clone, Copy, Debug, PartialEq, Eq)]
+pub enum VmHandler {
+    None,
+    Next,
+    Address(usize),
+}
+
+/// How a run-time error is dispatched.
+#[derive(Clone, Copy, Debug, PartialEq, Eq)]
+pub enum VmDispatch {
+    /// Control goes to the handler at the given address.
+    Handler(usize),
+    /// ON ERROR RESUME NEXT: control continues at the given address.
+    Next(usize),
+    /// No handler: the error ends the program.
+    Unhandled,
+}
+
+pub enum VmEvent<'a> {
+    /// About to execute the instruction at `pc`.
+    Step {
+        pc: usize,
+        instruction: &'a Instruction,
+        pos: Position,
+        is_statement_start: bool,
+        handler: VmHandler,
+        depths: VmDepths,
+    },
+    /// The instruction at `pc` failed.
+    Error {
+        pc: usize,
+        error: &'a RuntimeErrorPos,
+        dispatch: VmDispatch,
+        depths: VmDepths,
+    },
+}
+
+#[derive(Clone, Copy, Debug, PartialEq, Eq)]
+pub enum VmControl {
+    Continue,
+    /// Stop the run (outside BASIC error handling); `interpret` returns `Ok`.
+    Stop,
+}
+
+pub type VmObserver = Box<dyn FnMut(&VmEvent) -> VmControl>;
